@@ -19,7 +19,8 @@ macro_rules! battery {
     ($m:ident, $k:ident) => {
         pub mod $m {
             use super::Case;
-            use $k::{Date, DateTime, DateUtilities, Offset, OffsetUtilities, Precision, Time, TimeUtilities};
+            use $k::{CronSchedule, Date, DateTime, DateUtilities, Offset, OffsetUtilities, Precision, Time, TimeUtilities};
+            use $k::verif_hooks::tz_lookup;
             use std::time::Duration;
 
             fn date(days: i64) -> Date {
@@ -159,6 +160,68 @@ macro_rules! battery {
                         let p = pats[(d.rem_euclid(pats.len() as i64)) as usize];
                         format!("{} :: {} :: {}", x.format(p), Date::from(x).format(pats[(d.rem_euclid(7)) as usize]), Time::from(x).format(pats[7 + (d.rem_euclid(4)) as usize]))
                     }
+                    "C17" => {
+                        // a: schedule selector, b: start day, c: start second of day, d/e: clock advances (seconds), f: number of calls
+                        const MIN: [&str; 6] = ["*", "*/15", "0", "5,20", "59", "30-35"];
+                        const HOUR: [&str; 6] = ["*", "0", "12", "23", "*/6", "8-10"];
+                        // day-of-month choices stay <= 28 so that every schedule is satisfiable (an unsatisfiable one never returns)
+                        const DOM: [&str; 6] = ["*", "1", "15", "28", "10-12", "20"];
+                        const MON: [&str; 6] = ["*", "feb", "apr", "1,12", "*/5", "6"];
+                        const DOW: [&str; 6] = ["*", "mon", "0", "5,6", "7", "1-3"];
+                        let s = a as usize;
+                        let expr = format!("{} {} {} {} {}", MIN[s % 6], HOUR[(s / 6) % 6], DOM[(s / 36) % 6], MON[(s / 216) % 6], DOW[(s / 1296) % 6]);
+                        let mut sched = match CronSchedule::parse(&expr) { Ok(x) => x, Err(er) => return format!("Err({})", er) };
+                        let mut clock = DateTime::from_timestamp((b - 719_162) * 86_400 + cc.rem_euclid(86_400));
+                        let mut out = expr;
+                        let calls = 1 + f.rem_euclid(4);
+                        for i in 0..calls {
+                            sched.verif_set_now(clock);
+                            match sched.next() { Some(t) => out += &format!(" -> {}", t.format_rfc3339(Precision::Nanos)), None => out += " -> None" };
+                            clock = clock.add_seconds((if i % 2 == 0 { d } else { e }).rem_euclid(4_000_000) as u32);
+                        }
+                        out
+                    }
+                    "C18" | "C19" => {
+                        // a: structure selector, b..e: numbers, f: timestamp selector
+                        let ver = [0u8, b'2', b'3'][(a.rem_euclid(3)) as usize];
+                        let ntr = ((a / 3).rem_euclid(4)) as usize;
+                        let nty = 1 + ((a / 12).rem_euclid(3)) as usize;
+                        let times: Vec<i64> = (0..ntr).map(|i| b + (i as i64) * (1 + cc.rem_euclid(40_000_000))).collect();
+                        let idx: Vec<u8> = (0..ntr).map(|i| ((d >> (2 * i)) & 3) as u8 % (nty as u8 + ((a / 36).rem_euclid(5) == 0) as u8)).collect();
+                        let offs: Vec<i32> = (0..nty).map(|i| (((e >> (8 * i)) & 0xff) as i32 - 128) * 900).collect();
+                        const FOOT: [&str; 16] = ["", "<+01>-1", "HST10", "CET-1CEST,M3.5.0,M10.5.0/3", "EST5EDT,M3.2.0,M11.1.0", "AEST-10AEDT,M10.1.0,M4.1.0/3",
+                            "X-1Y,J59,J300", "X-1Y,J60,J365/25", "X-1Y,59,300", "X-1Y,0/0,364", "IST-2IDT,M3.4.4/26,M10.5.0", "X-1Y,M13.1.0,M3.1.0", "X-1Y,M3.0.0,M10.6.0",
+                            "X-1Y,J100,J366", "X-1Y,M3.1.0,M13.1.0", "X-1Y,M2.5.1/-3,M6.5.6/24:30:30"];
+                        let footer = FOOT[((a / 180).rem_euclid(16)) as usize];
+                        let block = |v8: bool| -> Vec<u8> {
+                            let mut o = Vec::new();
+                            o.extend_from_slice(b"TZif");
+                            o.push(ver);
+                            o.extend_from_slice(&[0u8; 15]);
+                            for c in [0u32, 0, 0, ntr as u32, nty as u32, 4] { o.extend_from_slice(&c.to_be_bytes()); }
+                            for t in &times { if v8 { o.extend_from_slice(&t.to_be_bytes()); } else { o.extend_from_slice(&(*t as i32).to_be_bytes()); } }
+                            o.extend_from_slice(&idx);
+                            for (i, u) in offs.iter().enumerate() { o.extend_from_slice(&u.to_be_bytes()); o.push((i % 2) as u8); o.push(0); }
+                            o.extend_from_slice(b"UTC\0");
+                            o
+                        };
+                        let mut bytes = block(false);
+                        if ver != 0 {
+                            bytes.extend(block(true));
+                            bytes.push(b'\n');
+                            bytes.extend_from_slice(footer.as_bytes());
+                            bytes.push(b'\n');
+                        }
+                        let cut = (a / 2880).rem_euclid(8);
+                        if cut == 7 { let n = bytes.len(); bytes.truncate(n - (1 + (b.rem_euclid(n as i64 - 1)) as usize).min(n - 1)); }
+                        let year = 1990 + f.rem_euclid(60);
+                        let base = match f.rem_euclid(5) { 0 => times.first().copied().unwrap_or(0), 1 => times.last().copied().unwrap_or(0), _ => (year - 1970) * 31_556_952 };
+                        let mut out = String::new();
+                        for ts in [base - 1, base, base + 1, base + 86_400 * (f.rem_euclid(366)), base + 3600 * (f.rem_euclid(9000))] {
+                            out += &p(|| format!("{:?};", tz_lookup(&bytes, ts)));
+                        }
+                        out
+                    }
                     _ => String::from("unsupported"),
                 }
             }
@@ -209,6 +272,8 @@ fn gen(prop: &str, r: &mut Rng) -> Case {
         "C08" => Case { a: nano(r), b: r.pick(&OFFS), c: cnt(r), d: if r.next() % 4 == 0 { r.pick(&[86_400_000_000_000, 86_400_000_000_001, -1, i64::MAX, 4_294_967_296_000_000_000, 4_294_967_295_999_999_999, 1 << 63]) } else { nano(r) }, e: r.next() as i64 & 0xffff, f: if r.next() % 2 == 0 { cnt(r) } else { (r.next() >> (r.next() % 30)) as i64 & 0x7fff_ffff_ffff_ffff } },
         "C09" | "C10" | "C15" => Case { a: day(r).clamp(-2_147_000_000, 2_147_000_000), b: nano(r), c: r.pick(&OFFS), d: if r.next() % 2 == 0 { small(r, 70) } else { r.pick(&[0, 1, 12, 13, 23, 24, 28, 29, 30, 31, 32, 59, 60, 255, 256, 365, 366, 367, 999, 1000, 999_999, 1_000_000, 999_999_999, 1_000_000_000, 2024, 2023, -5, -4, 5_879_611, -5_879_611, 4_294_967_295, 2_147_483_648, -2_147_483_648]) }, e: r.next() as i64 & 0xffff, f: if r.next() % 2 == 0 { r.pick(&OFFS) } else { r.pick(&[86_400, -86_400, 90_000, -2_147_483_648, 2_147_483_647, 23, -23, 24, 25]) } },
         "C11" => Case { a: day(r).clamp(-2_000_000_000, 2_000_000_000), b: nano(r), c: r.pick(&OFFS), d: r.next() as i64 & 0xffff, e: 0, f: 0 },
+        "C17" => Case { a: small(r, 7776), b: if r.next() % 2 == 0 { 738_000 + small(r, 3000) } else { r.pick(&[738_214, 738_215, 738_273, 738_274, 738_303, 738_304, 738_579, 738_580, 739_309, 739_310, 738_156]) }, c: if r.next() % 2 == 0 { small(r, 86_400) } else { r.pick(&[0, 1, 59, 60, 3599, 3600, 86_340, 86_399, 43_200]) }, d: small(r, 4_000_000), e: r.pick(&[0, 1, 59, 60, 61, 3600, 86_400, 2_678_400]), f: small(r, 4) },
+        "C18" | "C19" => Case { a: small(r, 23_040), b: if r.next() % 2 == 0 { small(r, 2_000_000_000) - 300_000_000 } else { r.pick(&[0, 1_000_000, 1_616_893_200, 1_635_037_200, 1_709_082_000]) }, c: small(r, 40_000_000), d: small(r, 256), e: r.next() as i64 & 0xff_ffff, f: small(r, 1_000_000) },
         _ => Case { a: 0, b: 0, c: 0, d: 0, e: 0, f: 0 },
     }
 }
